@@ -19,6 +19,18 @@ const STEP_CAP: usize = 4000;
 pub struct Workload {
     /// one script per process, ops as "mark:f1"
     pub scripts: Vec<Vec<String>>,
+    /// lock files present before the run: (file, content) — e.g. the flag of a dead process ("999"),
+    /// a legacy empty flag, or garbage
+    pub initial: Vec<(String, String)>,
+}
+
+/// Name of the flag file of /ws/<f>.sw (mirrors forc_util::hash_path: DefaultHasher of the path + stem).
+pub fn lock_file_name(f: &str) -> String {
+    use std::hash::{Hash, Hasher};
+    let path = std::path::PathBuf::from(format!("/ws/{f}.sw"));
+    let mut h = std::collections::hash_map::DefaultHasher::default();
+    path.hash(&mut h);
+    format!("{:X}-{f}.lock", h.finish())
 }
 
 #[derive(Clone, Debug, PartialEq)]
@@ -44,6 +56,7 @@ pub struct RunResult {
     pub exit_codes: Vec<Option<i32>>,
     pub step_cap_hit: bool,
     pub infeasible: bool,
+    pub had_initial: bool,
 }
 
 struct Proc {
@@ -111,6 +124,9 @@ pub fn run_once(w: &Workload, slot: &Path, mut sched: Sched) -> RunResult {
     }
     let home = slot.join("h");
     std::fs::create_dir_all(&home).unwrap();
+    for (f, content) in &w.initial {
+        write_file(&home.join(".forc/.lsp-locks").join(lock_file_name(f)), content.as_bytes());
+    }
     let live = slot.join("live");
     let slot_s = slot.display().to_string();
     let mut procs: Vec<Proc> = vec![];
@@ -165,6 +181,7 @@ pub fn run_once(w: &Workload, slot: &Path, mut sched: Sched) -> RunResult {
         fetch(p);
     }
     let mut res = RunResult::default();
+    res.had_initial = !w.initial.is_empty();
     let mut current: Option<usize> = None;
     let mut burst_target: Option<usize> = None;
     loop {
@@ -479,6 +496,9 @@ pub fn signature(r: &RunResult) -> Vec<String> {
     if r.steps.iter().any(|s| s.kill) {
         sig.insert("kill".into());
     }
+    if r.had_initial {
+        sig.insert("initial-stale-flag".into());
+    }
     // truncate window: a process opened/read a lock file while another one was between open(TRUNC) and write
     let mut in_window: BTreeMap<usize, usize> = BTreeMap::new(); // proc -> seq of its TRUNC open
     for s in &r.steps {
@@ -488,6 +508,25 @@ pub fn signature(r: &RunResult) -> Vec<String> {
             in_window.remove(&s.proc);
         } else if (s.req.contains(" R open RD ") || s.req.contains(" R read ")) && s.req.contains(".lock") && in_window.keys().any(|p| *p != s.proc) {
             sig.insert("window:read-between-truncate-and-write".into());
+        }
+    }
+    // stale-removal TOCTOU: A opened a lock file, B then published a new file under the same name, and A
+    // afterwards unlinked that name (A judged the *old* content stale and removed the *new* file by path)
+    let mut opened: BTreeMap<(usize, String), usize> = BTreeMap::new(); // (proc, path) -> seq of its latest open
+    let mut published: Vec<(usize, String, usize)> = vec![]; // (proc, path, seq)
+    for st in &r.steps {
+        let path = st.req.split(' ').find(|t| t.ends_with(".lock")).map(|t| t.to_string());
+        let Some(path) = path else { continue };
+        if st.req.contains(" R open RD ") {
+            opened.insert((st.proc, path), st.seq);
+        } else if st.req.contains(" M linkat ") || st.req.contains(" M link ") || st.req.contains(" open TRUNC ") || st.req.contains(" open CREAT ") {
+            published.push((st.proc, path, st.seq));
+        } else if st.req.contains(" M unlink ") {
+            if let Some(&o) = opened.get(&(st.proc, path.clone())) {
+                if published.iter().any(|(bp, pp, ps)| *bp != st.proc && *pp == path && *ps > o && *ps < st.seq) {
+                    sig.insert("stale-unlink-of-replaced-file".into());
+                }
+            }
         }
     }
     sig.into_iter().collect()
@@ -517,7 +556,12 @@ pub fn gen_workload(rng: &mut Rng) -> Workload {
         }
         scripts.push(s);
     }
-    Workload { scripts }
+    let mut initial = vec![];
+    if rng.chance(1, 3) {
+        let content = *rng.pick(&["999", "999", "", "not-a-pid"]);
+        initial.push(("f1".to_string(), content.to_string()));
+    }
+    Workload { scripts, initial }
 }
 
 pub fn gen_sched(rng: &mut Rng, nproc: usize, with_kills: bool) -> (Policy, Vec<KillPlan>, String) {
@@ -586,6 +630,14 @@ pub fn minimise(w: &Workload, r: &RunResult, clause: &str, slot: &Path) -> (Work
             }
         }
     }
+    if !w.initial.is_empty() {
+        let mut cand = w.clone();
+        cand.initial.clear();
+        if let Some(r2) = violates(&cand, &best.decisions, slot, clause) {
+            w = cand;
+            best = r2;
+        }
+    }
     // 3. drop kills that are not needed
     for i in 0..best.decisions.len() {
         if best.decisions[i].kill {
@@ -606,7 +658,7 @@ pub fn minimise(w: &Workload, r: &RunResult, clause: &str, slot: &Path) -> (Work
 
 fn replay_json(w: &Workload, r: &RunResult, seed_info: Value) -> Value {
     json!({
-        "workload": w.scripts,
+        "workload": w.scripts, "initial_lock_files": w.initial,
         "decisions": r.decisions.iter().map(|d| json!([d.proc, if d.kill { "K" } else { "G" }])).collect::<Vec<_>>(),
         "history": r.steps.iter().map(|s| format!("{} p{} {} {}", s.seq, s.proc, if s.kill { "KILL" } else { "go" }, s.req)).collect::<Vec<_>>(),
         "observer": r.observer, "alive": r.alive, "origin": seed_info,
@@ -641,7 +693,7 @@ pub fn main(cli: &Cli) -> i32 {
     }
     let mut ev = Evidence::new(PROP, &cli.tier, cli.seed, "exploration");
     let kf = KnownFindings::load("/verif/known_findings.json");
-    let workers = workers();
+    let workers = engine_a_workers();
     let n_runs = cli.get_usize("runs", if cli.thorough() { 60_000 } else { 4_000 });
     let wall_cap = cli.get_usize("wall", if cli.thorough() { 3000 } else { 420 }) as f64;
     // ---- determinism self-check: same seed twice, in different slots
@@ -673,6 +725,7 @@ pub fn main(cli: &Cli) -> i32 {
     let mut classes_seen: BTreeMap<String, usize> = BTreeMap::new();
     let mut reported: BTreeSet<String> = BTreeSet::new();
     let mut reported_min: BTreeSet<String> = BTreeSet::new();
+    let mut presumed_known = 0usize;
     let chunk = 512;
     while done < n_runs && ev.elapsed() < wall_cap {
         let n = chunk.min(n_runs - done);
@@ -711,7 +764,13 @@ pub fn main(cli: &Cli) -> i32 {
                 let class = format!("{clause}|{raw_sig}");
                 *classes_seen.entry(class.clone()).or_insert(0) += 1;
                 // minimise + report each raw class once per run of the check (minimisation costs ~100 runs)
-                if reported.len() < 12 && reported.insert(class) {
+                // Every raw class is minimised and classified, except that classes whose raw history already shows
+                // the mechanism of a listed known finding are only minimised 12 times per invocation (each costs
+                // ~100 runs); the rest of those are counted as presumed-known.
+                let looks_known = kf.known.iter().any(|k| k.property == PROP && k.clause == clause && !k.requires.is_empty() && k.requires.iter().all(|q| raw_sig.split(',').any(|x| x == q)));
+                if looks_known && reported.len() >= 12 {
+                    presumed_known += 1;
+                } else if reported.insert(class) {
                     let (mw, mr) = minimise(&w, &r, &clause, &base.join(format!("min{i}")));
                     let detail = judge(&mr).map(|x| x.1).unwrap_or_default();
                     // strict replay in a fresh slot must reproduce the same history
@@ -740,6 +799,7 @@ pub fn main(cli: &Cli) -> i32 {
     ev.set("policies", json!(policies));
     ev.set("probes", json!(probes));
     ev.set("violating_runs_by_raw_class", json!(classes_seen));
+    ev.set("violating_runs_not_minimised_because_raw_history_shows_a_known_finding", json!(presumed_known));
     ev.set("samples", json!(samples));
     ev.set("determinism_selfcheck", json!({"seeds_run_twice": det_n, "divergences": 0}));
     ev.set("components", json!({"real": ["forc_util::fs_locking", "sway_lsp::core::document::PidLockedFiles", "glibc", "kernel tmpfs", "process boundary / SIGKILL"], "stub": ["ps (liveness table owned by the simulator)", "getpid values (1001…)", "the driver's main() (flagdrv)"]}));
@@ -755,7 +815,8 @@ fn replay(path: &str, base: &PathBuf) -> i32 {
     let v: Value = serde_json::from_str(&txt).unwrap_or_else(|e| harness_error(&format!("bad replay json: {e}")));
     let scripts: Vec<Vec<String>> = serde_json::from_value(v["workload"].clone()).unwrap_or_else(|_| harness_error("replay: bad workload"));
     let decisions: Vec<Decision> = v["decisions"].as_array().cloned().unwrap_or_default().iter().map(|d| Decision { proc: d[0].as_u64().unwrap_or(0) as usize, kill: d[1].as_str() == Some("K") }).collect();
-    let w = Workload { scripts };
+    let initial: Vec<(String, String)> = serde_json::from_value(v["initial_lock_files"].clone()).unwrap_or_default();
+    let w = Workload { scripts, initial };
     let r = run_once(&w, &base.join("replay"), Sched::Forced { list: &decisions, pos: 0, tolerant: false });
     cleanup_scratch();
     if r.infeasible {
